@@ -15,6 +15,35 @@ theorem evaluateObj_controller_allowed (ev : Ev) (pol : Policy) (e : Bool) (p : 
   simp only [evaluateObj, evaluatePod]
   split <;> simp
 
+/-- with enforce = true the evaluator is called with the enforce policy -/
+theorem evaluateObj_calls_enforce (ev : Ev) (pol : Policy) (e : Bool) (p : PodObj)
+    (hrc : exemptRC p.runtimeClass cfg.exRuntimeClasses = false) :
+    pol.enforce ∈ (evaluateObj ev cfg pol e p true).2.evalCalls.map (·.1) := by
+  simp only [evaluateObj, evaluatePod, hrc, Bool.false_eq_true, ↓reduceIte, List.map_map]
+  by_cases h1 : pol.enforce = pol.audit <;> by_cases h0 : (aggregate (ev pol.enforce p)).allowed <;>
+    by_cases h2 : pol.enforce = pol.warn <;> by_cases h3 : pol.audit = pol.warn <;> simp_all [cacheGet] <;>
+    (split <;> simp)
+
+theorem evaluateObj_rc_bypass' (ev : Ev) (pol : Policy) (e : Bool) (p : PodObj) (enf : Bool)
+    (h : exemptRC p.runtimeClass cfg.exRuntimeClasses = true) :
+    evaluateObj ev cfg pol e p enf = ({ allowed := true, annExempt := some b!"runtimeClass" }, { metrics := [.exemption] }) := by
+  simp [evaluateObj, evaluatePod, h]
+
+/-- the metric events of one EvaluatePod call, in terms of what the response shows -/
+theorem evaluateObj_metrics (ev : Ev) (pol : Policy) (e : Bool) (p : PodObj) (enf : Bool)
+    (hrc : exemptRC p.runtimeClass cfg.exRuntimeClasses = false) :
+    (evaluateObj ev cfg pol e p enf).2.metrics =
+      (if e then [Metric.error false] else []) ++
+      (if enf then [Metric.eval (evaluateObj ev cfg pol e p enf).1.allowed pol.enforce 0] else []) ++
+      (if (evaluateObj ev cfg pol e p enf).1.annAudit.isSome then [Metric.eval false pol.audit 1] else []) ++
+      (if (evaluateObj ev cfg pol e p enf).1.warnings.isEmpty then [] else [Metric.eval false pol.warn 2]) := by
+  simp only [evaluateObj, evaluatePod, hrc, Bool.false_eq_true, ↓reduceIte]
+  cases enf <;>
+  by_cases h1 : pol.enforce = pol.audit <;> by_cases h0 : (aggregate (ev pol.enforce p)).allowed <;>
+    by_cases h2 : pol.enforce = pol.warn <;> by_cases h3 : pol.audit = pol.warn <;>
+    by_cases h4 : (aggregate (ev pol.audit p)).allowed <;> by_cases h5 : (aggregate (ev pol.warn p)).allowed <;>
+    simp_all [cacheGet]
+
 /-- C09: a pod-controller request is never denied -/
 theorem C09_allowed : (validateController pv cfg w r).1.allowed = true := by
   unfold validateController
